@@ -94,6 +94,8 @@ pub struct World {
     /// hit by choosing the flags field), holding forged data.
     pub evil_root: Option<ZoneData>,
     pub trust_anchor_text: String,
+    /// The same anchor given as a DS record of the root key.
+    pub trust_anchor_ds_text: String,
     pub inception: u32,
     pub expiration: u32,
     /// The RRSIG over `zone.tld. DS` (in the tld zone) expires earlier than
@@ -251,6 +253,11 @@ pub fn build_world(variant: u32, epoch: u32) -> World {
     let tld_key = make_key("tld.", 2);
     let zone_key = make_key("zone.tld.", 3);
     let evil_key = make_key("evil.tld.", 4);
+    // Two zones delegated two labels below the tld's apex (`ent.tld.` is an
+    // empty non-terminal of the tld zone): the walk from the tld's keys to
+    // theirs passes a name that is no zone cut.
+    let z1_key = make_key("z1.ent.tld.", 5);
+    let z2_key = make_key("z2.ent.tld.", 6);
     let leaf_denial = match variant % 4 {
         0 => Denial::Nsec,
         1 => Denial::Nsec3 { iterations: 0, salt: false, opt_out: false },
@@ -267,9 +274,12 @@ pub fn build_world(variant: u32, epoch: u32) -> World {
     // RFC 4035 section 5.2 has a validator ignore those and use the rest.
     let extra_ds = if variant % 2 == 1 { format!("zone.tld. 3600 IN DS 4711 15 2 {}\n", "AB".repeat(32)) } else { String::new() };
     let tld_text = format!(
-        "tld. 3600 IN SOA ns.tld. admin.tld. 1 7200 3600 86400 300\ntld. 3600 IN NS ns.tld.\nns.tld. 3600 IN A 198.51.100.2\nzone.tld. 3600 IN NS ns.zone.tld.\n{extra_ds}zone.tld. 3600 IN DS {}\nns.zone.tld. 3600 IN A 198.51.100.3\nunsigned.tld. 3600 IN NS ns.unsigned.tld.\nns.unsigned.tld. 3600 IN A 198.51.100.4\nevil.tld. 3600 IN NS ns.evil.tld.\nevil.tld. 3600 IN DS {}\nns.evil.tld. 3600 IN A 198.51.100.66\nplain.tld. 3600 IN TXT \"in the tld zone\"\nalso.unsigned2.tld. 3600 IN TXT \"below an ent\"\n",
+        "tld. 3600 IN SOA ns.tld. admin.tld. 1 7200 3600 86400 300\ntld. 3600 IN NS ns.tld.\nns.tld. 3600 IN A 198.51.100.2\nzone.tld. 3600 IN NS ns.zone.tld.\n{extra_ds}zone.tld. 3600 IN DS {}\nns.zone.tld. 3600 IN A 198.51.100.3\nunsigned.tld. 3600 IN NS ns.unsigned.tld.\nns.unsigned.tld. 3600 IN A 198.51.100.4\nevil.tld. 3600 IN NS ns.evil.tld.\nevil.tld. 3600 IN DS {}\nns.evil.tld. 3600 IN A 198.51.100.66\nplain.tld. 3600 IN TXT \"in the tld zone\"\nalso.unsigned2.tld. 3600 IN TXT \"below an ent\"\nz1.ent.tld. 3600 IN NS ns.z1.ent.tld.\nz1.ent.tld. 3600 IN DS {}\nns.z1.ent.tld. 3600 IN A 198.51.100.71\nz2.ent.tld. 3600 IN NS ns.z2.ent.tld.\nz2.ent.tld. 3600 IN DS {}\nns.z2.ent.tld. 3600 IN A 198.51.100.72\ned.tld. 3600 IN NS ns.ed.tld.\ned.tld. 3600 IN DS 4712 15 2 {}\nns.ed.tld. 3600 IN A 198.51.100.73\n",
         ds_text("zone.tld.", &zone_key.1),
-        ds_text("evil.tld.", &evil_key.1)
+        ds_text("evil.tld.", &evil_key.1),
+        ds_text("z1.ent.tld.", &z1_key.1),
+        ds_text("z2.ent.tld.", &z2_key.1),
+        "CD".repeat(32)
     );
     let zone_text = "zone.tld. 3600 IN SOA ns.zone.tld. admin.zone.tld. 1 7200 3600 86400 300\n\
 zone.tld. 3600 IN NS ns.zone.tld.\n\
@@ -301,12 +311,29 @@ host.unsigned.tld. 300 IN TXT \"insecure\"\n";
     let evil_text = "evil.tld. 3600 IN SOA ns.evil.tld. admin.evil.tld. 1 7200 3600 86400 300\n\
 evil.tld. 3600 IN NS ns.evil.tld.\n\
 ns.evil.tld. 3600 IN A 198.51.100.66\n";
+    let z1_text = "z1.ent.tld. 3600 IN SOA ns.z1.ent.tld. admin.z1.ent.tld. 1 7200 3600 86400 300\n\
+z1.ent.tld. 3600 IN NS ns.z1.ent.tld.\n\
+ns.z1.ent.tld. 3600 IN A 198.51.100.71\n\
+www.z1.ent.tld. 300 IN A 192.0.2.71\n";
+    let z2_text = "z2.ent.tld. 3600 IN SOA ns.z2.ent.tld. admin.z2.ent.tld. 1 7200 3600 86400 300\n\
+z2.ent.tld. 3600 IN NS ns.z2.ent.tld.\n\
+ns.z2.ent.tld. 3600 IN A 198.51.100.72\n\
+www.z2.ent.tld. 300 IN A 192.0.2.72\n";
+    // A delegation whose DS set names only an algorithm the validator does
+    // not support (Ed25519): insecure, RFC 4035 section 5.2.
+    let ed_text = "ed.tld. 3600 IN SOA ns.ed.tld. admin.ed.tld. 1 7200 3600 86400 300\n\
+ed.tld. 3600 IN NS ns.ed.tld.\n\
+ns.ed.tld. 3600 IN A 198.51.100.73\n\
+host.ed.tld. 300 IN A 203.0.113.73\n";
     let mut zones = vec![
         build_zone(".", &root_text, Some(&root_key), Denial::Nsec, inception, expiration),
         build_zone("tld.", &tld_text, Some(&tld_key), tld_denial, inception, expiration),
         build_zone("zone.tld.", zone_text, Some(&zone_key), leaf_denial, inception, expiration),
         build_zone("unsigned.tld.", unsigned_text, None, Denial::Nsec, inception, expiration),
         build_zone("evil.tld.", evil_text, Some(&evil_key), Denial::Nsec, inception, expiration),
+        build_zone("z1.ent.tld.", z1_text, Some(&z1_key), Denial::Nsec, inception, expiration),
+        build_zone("z2.ent.tld.", z2_text, Some(&z2_key), leaf_denial, inception, expiration),
+        build_zone("ed.tld.", ed_text, None, Denial::Nsec, inception, expiration),
     ];
     // The DS of zone.tld is signed for a shorter period.
     {
@@ -350,6 +377,7 @@ ns.evil.tld. 3600 IN A 198.51.100.66\n";
         zones,
         evil_root,
         trust_anchor_text: format!(". 3600 IN DNSKEY {}", b64),
+        trust_anchor_ds_text: format!(". 3600 IN DS {}", ds_text(".", &root_key.1)),
         inception,
         expiration,
         ds_expiration,
